@@ -142,6 +142,31 @@ def parse_tsan(text):
     return out
 
 
+_VG_ERR = re.compile(r'^==\d+== (Invalid (?:read|write|free)[^\n]*|Conditional jump or move depends on uninitialised value\(s\)|Use of uninitialised value[^\n]*|'
+                     r'Syscall param [^\n]*|Mismatched free\(\)[^\n]*|Source and destination overlap[^\n]*|Argument \'[^\n]*|Jump to the invalid address[^\n]*|'
+                     r'Process terminating with default action of signal \d+[^\n]*)$', re.M)
+
+
+def parse_memcheck(text):
+    """valgrind memcheck error blocks -> list of {kind, sig, head}; sig = kind (sizes stripped) + the innermost frame inside the repository sources.
+    Blocks whose stack never enters the repository sources (harness, libc start-up) are returned with an empty frame and judged by the caller."""
+    out = []
+    ms = list(_VG_ERR.finditer(text))
+    for k, m in enumerate(ms):
+        block = text[m.start(): ms[k + 1].start() if k + 1 < len(ms) else len(text)]
+        kind = re.sub(r'\d+', 'N', m.group(1)).strip()
+        fn = ffile = ''
+        for fm in re.finditer(r'(?m)^==\d+==\s+(?:at|by) 0x[0-9A-F]+: (.+?) \(([^():]+):(\d+)\)\s*$', block):
+            name, fname = fm.group(1), fm.group(2)
+            if fname.endswith(('.cpp', '.cc', '.h', '.hpp', '.hh')) and not fname.startswith(('main.cpp', 'vm.cpp', 'extra.cpp', 'vclock.cpp', 'json.h', 'vg_', 'stl_', 'basic_string', 'new_allocator', 'alloc_traits', 'char_traits')) and '/' not in fname:
+                fn, ffile = _short_fn(name), fname
+                break
+            if ' uninitialised value was created' in block[:fm.start()]:
+                break
+        out.append({'kind': kind, 'fn': fn, 'file': ffile, 'sig': 'memcheck:%s|%s|%s' % (kind, fn, ffile), 'head': block.strip()[:3000]})
+    return out
+
+
 class Death(dict):
     """Result of a case whose worker died: kind in signal | cpu-timeout | wall-timeout."""
     pass
@@ -151,8 +176,9 @@ EOF = object()
 
 
 class _Worker:
-    def __init__(self, binary, idx, extra_env=None, args=(), cwd=None):
+    def __init__(self, binary, idx, extra_env=None, args=(), cwd=None, wrapper=()):
         self.binary = binary
+        self.wrapper = list(wrapper)
         self.idx = idx
         self.proc = None
         self.errpath = os.path.join(BUILD_ROOT, 'tmp', 'w%d_%d.err' % (os.getpid(), idx))
@@ -169,7 +195,7 @@ class _Worker:
         env.setdefault('TSAN_OPTIONS', 'halt_on_error=0:second_deadlock_stack=1:history_size=4')
         env.update(self.extra_env)
         self.errf = open(self.errpath, 'wb')
-        self.proc = subprocess.Popen([self.binary] + self.args, stdin=subprocess.PIPE, stdout=subprocess.PIPE, stderr=self.errf, env=env, bufsize=0, cwd=self.cwd)
+        self.proc = subprocess.Popen(self.wrapper + [self.binary] + self.args, stdin=subprocess.PIPE, stdout=subprocess.PIPE, stderr=self.errf, env=env, bufsize=0, cwd=self.cwd)
         self.buf = b''
         self.err_off = 0
 
@@ -268,6 +294,8 @@ class _Worker:
                 self._restart()
                 d = Death(kind='signal', rc=rc, stderr=err, step=step)
                 d['san'] = parse_sanitizer(err)
+                if self.wrapper:
+                    d['memcheck'] = parse_memcheck(err)
                 return d
             if line.startswith(b'R '):
                 sp = line.split(b' ', 2)
@@ -282,6 +310,10 @@ class _Worker:
                     self.err_off += len(new)
                     if b'ThreadSanitizer' in new:
                         r['tsan'] = parse_tsan(new.decode('latin-1'))
+                    if self.wrapper and b'==' in new:
+                        mc = parse_memcheck(new.decode('latin-1'))
+                        if mc:
+                            r['memcheck'] = mc
                 except OSError:
                     pass
                 if case.get('exit_after'):
@@ -309,10 +341,17 @@ class _Worker:
             # 'B id' or noise printed by the VM to stdout: ignore
 
 
+MEMCHECK = ('valgrind', '-q', '--tool=memcheck', '--error-exitcode=0', '--track-origins=no', '--num-callers=24', '--undef-value-errors=yes',
+            '--leak-check=no', '--read-var-info=no', '--error-limit=no')
+# CPU budgets are process CPU time (ITIMER_PROF), which under valgrind includes the instrumentation: scale them
+MEMCHECK_SLOWDOWN = 60
+
+
 class Runner:
     """Runs cases on a pool of vh workers. Each case is a dict with 'steps' (id is assigned here)."""
 
-    def __init__(self, flavour='asan', workers=None, extra_env=None, args=(), cwd=None):
+    def __init__(self, flavour='asan', workers=None, extra_env=None, args=(), cwd=None, wrapper=()):
+        self.wrapper = wrapper
         self.flavour = flavour
         self.binary, self.build_s = build(flavour)
         self.nworkers = workers or NWORKERS
@@ -332,7 +371,7 @@ class Runner:
         nw = max(1, min(self.nworkers, n))
 
         def work(widx):
-            w = _Worker(self.binary, widx, self.extra_env, self.args, self.cwd)
+            w = _Worker(self.binary, widx, self.extra_env, self.args, self.cwd, self.wrapper)
             try:
                 while True:
                     with lock:
@@ -668,3 +707,40 @@ def run_items(runner, prefix_steps, items, batch=25, base_cpu_ms=4000, item_cpu_
                 d['seq_only'] = True
                 out[i] = d
     return out
+
+
+# ----------------------------------------------------------------------------------------------
+# valgrind memcheck pass (uninitialised reads and accesses the red-zone sanitizers do not see)
+
+def run_memcheck(items, prefix_steps=(), batch=6, item_cpu_ms=1500, base_cpu_ms=6000):
+    """Runs items (step lists) on the plain flavour under valgrind memcheck. Returns (reports, deaths, n_run) where reports is a list of
+    (item index, memcheck report) with one entry per distinct signature and item, deaths a list of (item index, Death).
+    A batch that produced a report is re-run item by item so that the report is attributed to the item that causes it alone."""
+    runner = Runner('plain', wrapper=MEMCHECK)
+    prefix_steps = list(prefix_steps)
+
+    def mk(idx_list):
+        steps = list(prefix_steps)
+        for i in idx_list:
+            steps += items[i]
+        return {'steps': steps, 'cpu_ms': int((base_cpu_ms + item_cpu_ms * len(idx_list)) * MEMCHECK_SLOWDOWN)}
+
+    groups = [list(range(i, min(len(items), i + batch))) for i in range(0, len(items), batch)]
+    results = runner.run([mk(g) for g in groups], retry_timeouts=False)
+    singles = []
+    by_sig = {}     # valgrind prints an error context once per process: a report seen in a batch may not show again in the single re-run
+    for g, r in zip(groups, results):
+        if isinstance(r, Death) or r.get('memcheck'):
+            singles += g
+            for rep in r.get('memcheck') or []:
+                by_sig.setdefault(rep['sig'], (g[0], dict(rep, attributed_to_batch=g)))
+    deaths = []
+    if singles:
+        results = runner.run([dict(mk([i]), exit_after=True) for i in singles], retry_timeouts=False)
+        for i, r in zip(singles, results):
+            if isinstance(r, Death):
+                deaths.append((i, r))
+            for rep in r.get('memcheck') or []:
+                if rep['sig'] not in by_sig or 'attributed_to_batch' in by_sig[rep['sig']][1]:
+                    by_sig[rep['sig']] = (i, rep)
+    return sorted(by_sig.values(), key=lambda t: t[0]), deaths, len(items)
